@@ -2530,10 +2530,17 @@ void prepare_cases (parse_node_t * pn, size_t start) {
           save_file_info (current_file_id, current_line - current_line_saved);
           current_line_saved = current_line;
 
-          translate_absolute_line ((*ce)->line, (unsigned short *) mem_block[A_FILE_INFO].block, mem_block[A_FILE_INFO].current_size, &fi1, &l1);
-          translate_absolute_line ((*(ce - 1))->line, (unsigned short *) mem_block[A_FILE_INFO].block, mem_block[A_FILE_INFO].current_size, &fi2, &l2);
-          f1 = PROG_STRING (fi1);
-          f2 = PROG_STRING (fi2);
+          /* a file id is the index of the file's name in the string table plus
+           * one (see add_program_file() and find_line()); no name is shown when
+           * the line cannot be translated */
+          f1 = f2 = 0;
+          l1 = l2 = 0;
+          if (0 == translate_absolute_line ((*ce)->line, (unsigned short *) mem_block[A_FILE_INFO].block, mem_block[A_FILE_INFO].current_size, &fi1, &l1)
+              && fi1 > 0 && (size_t) fi1 <= mem_block[A_STRINGS].current_size / sizeof (char *))
+            f1 = PROG_STRING (fi1 - 1);
+          if (0 == translate_absolute_line ((*(ce - 1))->line, (unsigned short *) mem_block[A_FILE_INFO].block, mem_block[A_FILE_INFO].current_size, &fi2, &l2)
+              && fi2 > 0 && (size_t) fi2 <= mem_block[A_STRINGS].current_size / sizeof (char *))
+            f2 = PROG_STRING (fi2 - 1);
 
           p = strput (buf, buf_end, "Overlapping cases: ");
           if (f1)
@@ -2543,6 +2550,7 @@ void prepare_cases (parse_node_t * pn, size_t start) {
             }
           else
             p = strput (p, buf_end, "line ");
+          p = strput_int (p, buf_end, l1);
           p = strput (p, buf_end, " and ");
           if (f2)
             {
@@ -2551,6 +2559,7 @@ void prepare_cases (parse_node_t * pn, size_t start) {
             }
           else
             p = strput (p, buf_end, "line ");
+          p = strput_int (p, buf_end, l2);
           p = strput (p, buf_end, ".");
           yyerror (buf);
         }
